@@ -141,6 +141,19 @@ def _in_is_zero_public():
     return False
 
 
+def _use_pattern(world, key, bound, s):
+    """All parties must agree on whether a PRF value is patterned: the first party to evaluate (key, bound, input)
+    decides (while the budget lasts -- Las-Vegas retry loops must end) and the others follow."""
+    dk = (bytes(key), bound, bytes(s))
+    d = world.pattern_decisions.get(dk)
+    if d is None:
+        d = world.pattern_budget > 0
+        if d:
+            world.pattern_budget -= 1
+        world.pattern_decisions[dk] = d
+    return d
+
+
 class PatternPRF:
     """thresha.PRF stand-in: real SHAKE-based values, except that mask-type outputs (power-of-two bound) are all 0 /
     all max when the world's mask pattern says so -- every subset's contribution at its extreme at the same time --
@@ -152,6 +165,8 @@ class PatternPRF:
     def __call__(self, key, bound):
         real = self.real_cls(key, bound)
         world = self.world
+        from mc.sp import is_mask_bound
+        maskish = is_mask_bound(bound)
 
         def prf(s, n=None):
             vals = real(s, n)
@@ -159,8 +174,7 @@ class PatternPRF:
             if bound.bit_length() // world.cfg['sec_param'] >= 2 and _in_is_zero_public():
                 world.blinding_forced = getattr(world, 'blinding_forced', 0) + 1
                 return 1 if n is None else [1] * n
-            if mode in ('zero', 'max') and bound & (bound - 1) == 0 and bound > 1 and world.pattern_budget > 0:
-                world.pattern_budget -= 1      # Las-Vegas retry loops over binary fields must end
+            if mode in ('zero', 'max') and maskish and _use_pattern(world, key, bound, s):
                 v = 0 if mode == 'zero' else bound - 1
                 if n is None:
                     return v
@@ -196,6 +210,7 @@ def make_world(m, t, no_prss, k):
     world.script_seams = seams
     world.mask_pattern = 'seeded'
     world.pattern_budget = 0
+    world.pattern_decisions = {}
     return world
 
 
@@ -269,7 +284,8 @@ def run_mp(pid, job, build, base_k=4, batch=24, patterns=('seeded', 'zero', 'max
             def setup(w):
                 ctxs.clear()
                 w.mask_pattern = pat
-                w.pattern_budget = 40 * len(chunk) * m
+                w.pattern_budget = 400 * len(chunk)
+                w.pattern_decisions = {}
                 for i, s in enumerate(seams):
                     s.begin(pat, job['seed'] * 100 + i, None)
                 for p in range(m):
